@@ -128,6 +128,8 @@ pub fn run_case(case: &Value, out: &mut Out) {
     let mode = case.get("mode").and_then(|m| m.as_str()).unwrap_or("full").to_string();
     let meta = case.get("meta").cloned().unwrap_or(json!({}));
     let (bytes, prog, enc) = case_bytes(case);
+    // full validation recomputes every pixel in TLC: canvases beyond 2^16 pixels are only monitored
+    let mode = if mode == "full" && prog.as_ref().map_or(false, |p| p.hdr.w as usize * p.hdr.h as usize > (1 << 16)) { "light".to_string() } else { mode };
     out.ev(&json!({"ev": "begin", "case": id, "mode": mode, "meta": meta, "len": bytes.len(),
         "eof": enc.as_ref().map_or(bytes.len(), |e| e.end_of_frames),
         "hdr": prog.as_ref().map_or(json!([]), |p| json!([p.hdr])),
